@@ -71,7 +71,7 @@ type Result struct {
 }
 
 const (
-	caseWatchdog = 20 * time.Second
+	caseWatchdog = 10 * time.Second
 	leakWait     = 10 * time.Second
 	maxValues    = 200000
 )
@@ -85,6 +85,8 @@ func heapAllocs() uint64 {
 
 var reFunc = regexp.MustCompile(`(?m)^(github\.com/brimdata/super[^\s(]*(?:\(\*?[A-Za-z0-9_]+\))?[^\s(]*)\(`)
 
+var reClosure = regexp.MustCompile(`(\.func\d+)+(\.\d+)*$`)
+
 // siteOf extracts the innermost repository function from a Go stack trace.
 func siteOf(stack string) string {
 	for _, m := range reFunc.FindAllStringSubmatch(stack, -1) {
@@ -94,7 +96,7 @@ func siteOf(stack string) string {
 			continue
 		}
 		// strip closure suffixes like .func1.2
-		fn = regexp.MustCompile(`(\.func\d+)+(\.\d+)*$`).ReplaceAllString(fn, ".func")
+		fn = reClosure.ReplaceAllString(fn, ".func")
 		return fn
 	}
 	return "?"
